@@ -140,7 +140,7 @@ SUITES = {
             dict(module="MC_Claims", cfg=tiered("MC_Claims_pcq.cfg", "MC_Claims_pc.cfg"),
                  timeout=tiered(900, 3600), workers=4)],
         sim=dict(module="MC_Claims", cfg="Sim_Claims.cfg", num=tiered(12, 36), depth=30),
-        tour_cap=tiered(220, 3000),
+        tour_cap=tiered(400, 5000),
         driver="claims",
         driver_args=lambda tier: ["--random", 40 if tier == "quick" else 1500, "--len", 80],
         trace=dict(module="Trace_Claims", cfg_in="Trace_Claims.cfg.in", timeout=4 * 3600, split=4),
